@@ -189,11 +189,11 @@ func isLocalAnyDepth(u *core.Unit, e ast.Expr, name string) bool {
 		return false
 	}
 	id, ok := ast.Unparen(e).(*ast.Ident)
-	if !ok || id.Name != name {
+	if !ok {
 		return false
 	}
 	v, ok := core.ObjOf(u.Info(), id).(*types.Var)
-	return ok && !v.IsField()
+	return ok && !v.IsField() && (core.CanonName(v) == name || id.Name == name)
 }
 
 // ---- guards ----
@@ -628,8 +628,11 @@ func localAnchors(c *core.Ctx, R string, u *core.Unit, names ...string) bool {
 	root := u.Root()
 	ast.Inspect(root.Body, func(n ast.Node) bool {
 		if id, ok := n.(*ast.Ident); ok {
-			if _, isDef := u.Info().Defs[id]; isDef {
+			if o, isDef := u.Info().Defs[id]; isDef {
 				have[id.Name] = true
+				if o != nil {
+					have[core.CanonName(o)] = true
+				}
 			}
 		}
 		return true
@@ -638,14 +641,14 @@ func localAnchors(c *core.Ctx, R string, u *core.Unit, names ...string) bool {
 		if x.Type != nil && x.Type.Params != nil {
 			for _, f := range x.Type.Params.List {
 				for _, n := range f.Names {
-					have[n.Name] = true
+					have[core.CanonIdent(u.Info(), n)] = true
 				}
 			}
 		}
 		if x.Type != nil && x.Type.Results != nil {
 			for _, f := range x.Type.Results.List {
 				for _, n := range f.Names {
-					have[n.Name] = true
+					have[core.CanonIdent(u.Info(), n)] = true
 				}
 			}
 		}
